@@ -8,6 +8,7 @@ import copy
 import logging
 
 REPO = os.environ.get('RTAMT_REPO', '/repo')
+sys.path.insert(0, os.path.join(os.path.dirname(os.path.abspath(__file__)), 'pdmods'))      # the modules the import oracle describes
 if REPO not in sys.path:
     sys.path.insert(0, REPO)
 logging.disable(logging.CRITICAL)
@@ -130,7 +131,7 @@ def run_case(case):
             b = [list(x) for x in case['b']]
             res = isect.intersection(a, b, method)
             out['calls'].append({'status': 'ok', 'value': canon_val(res[0])})
-        except (Exception, SystemExit) as exc:  # noqa
+        except BaseException as exc:  # noqa
             out['calls'].append(classify(exc))
         return out
     if case['monitor'] == 'dense-online-op':
@@ -221,7 +222,7 @@ def run_case(case):
             p = case['late_period']
             spec.set_sampling_period(p[0], p[1], p[2])
         out['setup'] = {'status': 'ok', 'value': None}
-    except (Exception, SystemExit) as exc:  # noqa
+    except BaseException as exc:  # noqa
         out['setup'] = classify(exc)
         return out
     for call in case.get('calls', []):
@@ -266,13 +267,20 @@ def run_case(case):
                 res = {'status': 'ok', 'value': spec.spec_print()}
             elif kind == 'ast':
                 res = {'status': 'ok', 'value': [ast_dump(n) for n in spec.ast.specs]}
+            elif kind == 'tables':
+                a = spec.ast
+                res = {'status': 'ok', 'value': {
+                    'name': '-' if a.name == 'Abstract Specification' else a.name, 'mods': [[k, v.__name__] for k, v in a.modules.items()],
+                    'vars': sorted(a.vars), 'types': [list(x) for x in a.var_type_dict.items()], 'io': [list(x) for x in a.var_io_dict.items()],
+                    'consts': [list(x) for x in a.const_val_dict.items()], 'topics': [list(x) for x in a.var_topic_dict.items()],
+                    'free': sorted(a.free_vars), 'out': [a.out_var, a.out_var_field], 'asts': [ast_dump(n) for n in a.specs]}}
             elif kind == 'explain':
                 spec.explain()
                 ex = spec.explainer.explanations if hasattr(spec.explainer, 'explanations') else None
                 res = {'status': 'ok', 'value': canon_val(ex)}
             else:
                 raise ValueError('unknown call ' + kind)
-        except (Exception, SystemExit) as exc:  # noqa
+        except BaseException as exc:  # noqa
             res = classify(exc)
         out['calls'].append(res)
     return out
@@ -372,7 +380,7 @@ def run_multi(mcase):
         try:
             objs.append(setup_spec(case))
             out['setup'].append({'status': 'ok'})
-        except (Exception, SystemExit) as exc:  # noqa
+        except BaseException as exc:  # noqa
             objs.append(None)
             out['setup'].append(classify(exc))
     for (oi, ci) in mcase['schedule']:
@@ -382,7 +390,7 @@ def run_multi(mcase):
             continue
         try:
             out['calls'].append(do_call(objs[oi], case, case['calls'][ci]))
-        except (Exception, SystemExit) as exc:  # noqa
+        except BaseException as exc:  # noqa
             out['calls'].append(classify(exc))
     return out
 
